@@ -9,6 +9,7 @@ mod ops;
 mod scen_batch;
 mod scen_chain;
 mod scen_corrupt;
+mod scen_limits;
 mod shrink;
 
 use harness::Opts;
@@ -31,6 +32,7 @@ fn inner(scen: &str, o: &Opts) -> i32 {
         "corrupt" => harness::run_inner(scen_corrupt::Corrupt, o),
         "batch" => harness::run_inner(scen_batch::Batch, o),
         "chain" => harness::run_inner(scen_chain::Chain, o),
+        "limits" => harness::run_inner(scen_limits::Limits::new(), o),
         _ => usage(),
     }
 }
@@ -40,6 +42,7 @@ fn outer(scen: &str, o: &Opts, raw: &[String]) -> i32 {
         "corrupt" => harness::run_outer(scen_corrupt::Corrupt, scen, o, raw),
         "batch" => harness::run_outer(scen_batch::Batch, scen, o, raw),
         "chain" => harness::run_outer(scen_chain::Chain, scen, o, raw),
+        "limits" => harness::run_outer(scen_limits::Limits::new(), scen, o, raw),
         _ => usage(),
     }
 }
@@ -63,6 +66,7 @@ fn replay_file(path: &str) -> i32 {
         "corrupt" => harness::replay(&scen_corrupt::Corrupt, &j),
         "batch" => harness::replay(&scen_batch::Batch, &j),
         "chain" => harness::replay(&scen_chain::Chain, &j),
+        "limits" => harness::replay(&scen_limits::Limits::new(), &j),
         s => {
             eprintln!("HARNESS-ERROR: unknown scenario {s:?} in {path}");
             2
@@ -89,6 +93,8 @@ fn main() {
             }
         },
         Some("replay") if args.len() == 2 => replay_file(&args[1]),
+        Some("limits-child") if args.len() == 2 => scen_limits::child_main(&args[1]),
+        Some("limits-floors") => scen_limits::floors_main(),
         _ => usage(),
     };
     std::process::exit(code);
